@@ -129,5 +129,11 @@ def doublingAug (fs : List (Expr K)) (u0 : List K) (t : K) (numDoublings : Nat) 
   factorialScale (iter (fun tc => double fs tc
     (TSer.ofFn _ fun j => if j = 0 then t else if j = 1 then 1 else 0)) numDoublings [u0])
 
+/-- number of coefficients after `n` doublings: `1, 3, 7, 15, …` (`= 2^(n+1) − 1`) -/
+def dlen : Nat → Nat
+  | 0 => 1
+  | n + 1 => 2 * dlen n + 1
+
+
 end Jet
 end Pdq
